@@ -59,7 +59,7 @@ Definition result_sx (p : result) : sx :=
   end.
 
 Definition run_typed (inp : bool * list token) : sx :=
-  let '(rp, toks) := inp in SL (map result_sx (run_packets registry rp toks)).
+  let '(rp, toks) := inp in SL (map result_sx (run_packets registry rp go_typed_ok toks)).
 
 (* malformed byte streams have no model (no tokens): the harness sends the placeholder 77
    and reports 77 when its own oracle (error in bounded time, no panic) is met *)
